@@ -247,6 +247,43 @@ type Episode struct {
 
 const episodePtsCap = 2500000
 
+// sweepPlan enumerates single-preemption schedules: for every ordered pair
+// (a, b) of short pool ops of different kinds, client 0 runs a up to point p,
+// client 1 runs b to completion, client 0 finishes - for every p on a grid
+// over a's measured solo length. Exhaustive over that grid; the grid is every
+// point for ops of up to sweepGrid points.
+const sweepGrid = 240
+
+type sweepItem struct {
+	a, b int
+	p    int64
+}
+
+func sweepPlan(pool []*Op, refs []Ref) []sweepItem {
+	var short []int
+	seen := map[string]int{}
+	for i, op := range pool {
+		if refs[i].Pts > 0 && refs[i].Pts <= 60000 && seen[op.Fn] < 2 && len(op.Entries) <= 5 {
+			seen[op.Fn]++
+			short = append(short, i)
+		}
+	}
+	var items []sweepItem
+	for _, a := range short {
+		n := refs[a].Pts
+		step := n / sweepGrid
+		if step < 1 {
+			step = 1
+		}
+		for _, b := range short {
+			for p := int64(1); p <= n; p += step {
+				items = append(items, sweepItem{a, b, p})
+			}
+		}
+	}
+	return items
+}
+
 var fnKinds = []string{"VerifyBatch", "Verify", "VerifyOpts", "Sign", "PrivSign", "GenerateKey", "NewKeyFromSeed", "X25519", "ScalarBaseMult", "ScalarMult", "EdPubToX", "EdPrivToX", "Public", "PubEqual"}
 
 // genFirstUse: the first thing this process does with the library is that
@@ -370,6 +407,7 @@ type ConcStats struct {
 	Concurrent int            `json:"episodes_with_overlap"`
 	SchedSigs  []string       `json:"sched_sigs"`
 	Samples    []interface{}  `json:"samples"`
+	Notes      map[string]int `json:"notes,omitempty"`
 	Viol       int            `json:"violations"`
 	WallS      float64        `json:"wall_s"`
 	FirstIdx   int            `json:"first_idx"`
@@ -390,6 +428,7 @@ type concArgs struct {
 	family   string
 	dumpep   bool
 	firstuse int
+	eidx, en int
 }
 
 func loadRefs(path string, n int) []Ref {
@@ -782,7 +821,22 @@ func concMain(a concArgs) int {
 	deadline := start.Add(a.dur)
 	idx := a.from
 	st.FirstIdx = idx
+	var sweep []sweepItem
+	if a.family == "sweep" && fixed == nil {
+		sweep = sweepPlan(pool, refs)
+		st.Notes = map[string]int{"sweep_total": len(sweep)}
+		if a.en < 1 {
+			a.en = 1
+		}
+		for idx%a.en != a.eidx {
+			idx++
+		}
+	}
 	for {
+		if sweep != nil && idx >= len(sweep) {
+			st.Notes["sweep_complete"] = 1
+			break
+		}
 		if fixed == nil {
 			if a.to >= 0 && idx >= a.to {
 				break
@@ -795,7 +849,13 @@ func concMain(a concArgs) int {
 		if fixed != nil {
 			ep = fixed
 		} else {
-			ep = genEpisode(a.seed, a.worker, idx, pool, refs, a.family)
+			if sweep != nil {
+				it := sweep[idx]
+				ep = &Episode{Idx: idx, Family: "sweep", SSeed: uint64(idx), Clients: [][]int{{it.a}, {it.b}},
+					Grants: []Grant{{C: 0, S: it.p}, {C: 1, S: 0}, {C: 0, S: 0}}}
+			} else {
+				ep = genEpisode(a.seed, a.worker, idx, pool, refs, a.family)
+			}
 			if a.firstuse >= 0 && idx == a.from && a.family == "" {
 				if fu := genFirstUse(a.seed, a.worker, idx, a.firstuse, pool); fu != nil {
 					ep = fu
@@ -844,6 +904,10 @@ func concMain(a concArgs) int {
 			break
 		}
 		idx++
+		if sweep != nil {
+			st.Notes["sweep_done"]++
+			idx += a.en - 1
+		}
 	}
 	st.LastIdx = idx
 	st.Viol = viols
